@@ -6,6 +6,7 @@ import (
 	"go/token"
 	"go/types"
 	"strings"
+	"verifcheck/internal/core"
 
 	"golang.org/x/tools/go/ssa"
 
@@ -14,9 +15,9 @@ import (
 
 func init() {
 	Register(&Spec{
-		ID: "C11",
+		ID:          "C11",
 		Explanation: "Decides structural necessary conditions of exactly-once, deadlock-free promise pipelining: (R1) lock balance and the documented 'caller must hold p.mu' contracts in answer.go, on every CFG path; (R2) all Promise fields declared after mu are only touched with Promise.mu held (named exemptions for the pending-state exclusive accesses); (R3) a lazily created map field is established non-nil on every path before each element assignment; (R4) every function that receives a capnp.Recv consumes its Returner exactly once on every path; (R5) ongoingCalls++/-- bracket the pipeline call on every path and callsStopped is closed only under ongoingCalls == 0 && callsStopped != nil; (R6) joined/signals are cleared after being closed, and Fulfill/Reject/Join act only when isUnresolved(); (R7) no application code and no re-lock under Promise.mu. Does NOT decide exactly-once delivery under all interleavings nor reference transfer of proxy clients.",
-		Run: runC11,
+		Run:         runC11,
 	})
 }
 
@@ -27,7 +28,7 @@ func runC11(ctx *Ctx) {
 	ruleGuardedBy(ctx, "C11-R2", func(g guardedField) bool { return capnpField(g, "Promise") })
 	ruleLazyMap(ctx, "C11-R3", "")
 	ruleRecvLinear(ctx, "C11-R4", func(name string) bool {
-		return strings.HasPrefix(name, "capnp.") 
+		return strings.HasPrefix(name, "capnp.")
 	})
 	ruleOngoingCalls(ctx, "C11-R5")
 	ruleResolveOnce(ctx, "C11-R6")
@@ -190,8 +191,8 @@ func ruleOngoingCalls(ctx *Ctx, rule string) {
 			}
 		}
 	}
-	if closes < 2 {
-		r.Fail("%s: expected two close(callsStopped) sites, found %d", rule, closes)
+	if closes < 1 {
+		r.Fail("%s: no close(callsStopped) site found (found %d)", rule, closes)
 	}
 }
 
@@ -267,7 +268,7 @@ func ruleResolveOnce(ctx *Ctx, rule string) {
 				// the state transition: a call of resolve, or a store to p.caller
 				isTransition := ssaq.StaticCalleeName(in) == "capnp.(*Promise).resolve"
 				if st, ok := in.(*ssa.Store); ok {
-					if fa, ok := st.Addr.(*ssa.FieldAddr); ok && ssaq.FieldVar(fa) != nil && ssaq.FieldVar(fa).Name() == "caller" {
+					if fa, ok := st.Addr.(*ssa.FieldAddr); ok && ssaq.FieldVar(fa) != nil && core.FieldName(ssaq.FieldVar(fa)) == "caller" {
 						isTransition = true
 					}
 				}
